@@ -580,4 +580,69 @@ func c18Sentinel(c *Ctx) {
 	if n < 4 {
 		c.undecided("timeout-sentinel/pass-through-sites", "fewer pass-through returns than expected in the read chain")
 	}
+	// universal form: once a read of the chain has failed, what the function returns as its error is that very error or
+	// the stop error — never one made on the spot ("Receive data timeout [SUCC]": not the sentinel any more)
+	for name := range chain {
+		f := c.Funcs[name]
+		ei := errIndex(f.Signature)
+		if ei < 0 {
+			continue
+		}
+		for _, ci := range callsIn(f, anyID) {
+			call, ok := ci.(*ssa.Call)
+			if !ok {
+				continue
+			}
+			callee := call.Call.StaticCallee()
+			if callee == nil || !chain[c.fnName(callee)] {
+				continue
+			}
+			ev := errorValueOf(call)
+			if ev == nil {
+				continue
+			}
+			for _, t := range classifyErrUse(ev).tests {
+				start := t.Block().Succs[nonNilEdge(t)]
+				seen := map[*ssa.BasicBlock]bool{}
+				var walk func(b *ssa.BasicBlock)
+				walk = func(b *ssa.BasicBlock) {
+					if seen[b] {
+						return
+					}
+					seen[b] = true
+					for _, in := range b.Instrs {
+						if c2, ok := in.(*ssa.Call); ok && c2 != call {
+							if g := c2.Call.StaticCallee(); g != nil && chain[c.fnName(g)] {
+								return // the next read: a new attempt
+							}
+						}
+						r, ok := in.(*ssa.Return)
+						if !ok {
+							continue
+						}
+						good := true
+						for _, l := range origins(retVal(r, ei), originOpts{}) {
+							if len(l.Via) > 0 && !seen[l.Via[len(l.Via)-1]] {
+								continue // a phi edge from outside the failed-read region
+							}
+							if sameValue(l.V, ev) {
+								continue
+							}
+							if lc, _ := callOf(l.V); lc != nil {
+								if g := lc.Call.StaticCallee(); g != nil && (chain[c.fnName(g)] || c.fnName(g) == "trzszTransfer.checkStop") {
+									continue
+								}
+							}
+							good = false
+						}
+						c.check(good, name+"/failed-read-returns-its-error."+shortID(calleeID(&call.Call)), c.ipos(r), "after a failed read the function returns that read's error (or the stop error)", "after a failed read the function can return an error made on the spot instead of the read's own: the timeout sentinel is lost, a pause that outlasts one read fails the transfer")
+					}
+					for _, sx := range b.Succs {
+						walk(sx)
+					}
+				}
+				walk(start)
+			}
+		}
+	}
 }
